@@ -350,7 +350,9 @@ def shard(n, s, shrink=False):
 # coverage-guided byte-level fuzzing (atheris / libFuzzer in the tooling interpreter); candidates are re-judged here
 
 FUZZ_RUNS = {'quick': 80000, 'thorough': 3000000}
-RESOURCE = ('MemoryError', 'OverflowError', 'RecursionError')   # `align 99999999999999999999`: no output can exist; which error says so is the platform's business
+# `align 99999999999999999999`: no output can exist; which error says so is the platform's business.  IntStrLimit = the interpreter's
+# guard against converting integers of more than 4300 digits to text (`dd 1 << 393932`; sys.set_int_max_str_digits): same class
+RESOURCE = ('MemoryError', 'OverflowError', 'RecursionError', 'IntStrLimit')
 FUZZ_SEEDS = ['addi x1, x2, 3\n', 'K = 5\nL:\nli t0, %hi(L + K)\nbeq x1 x2 L\n', 'pack <I, 5\nstring "hi"\nbytes 1 2 3\nalign 4\nlw x1, 4(x2)\nc.addi x8, 1\n',
               "R = x8\nshorts 1 -2\ndw 'a'\nlui a0, %hi(0x20000000)\ncall L\nL:\nret\n", 'dd 1 << 40\nlonglongs 7\nfence iorw, iorw\namoadd.w x1, x2, x3, 1, 0\ncsrrw x1, 0x300, x2\n']
 
@@ -378,6 +380,8 @@ def raw_key(a, source, compress):
         return None if (n is not None and 1 <= n <= (len(source.splitlines()) or 1)) else ('AssemblerError', 'line-out-of-text')
     except BaseException as e:
         tb = traceback.extract_tb(e.__traceback__)
+        if isinstance(e, ValueError) and 'integer string conversion' in str(e):
+            return ('IntStrLimit', tb[-1].name if tb else '?')
         return (type(e).__name__, tb[-1].name if tb else '?')
 
 
